@@ -49,3 +49,9 @@ Definition fx_case (ops : list fxop) (expected : list (string * list (Z * string
 Definition zero_anycert_case (E : sys) (cut nz : list string) (fuel : nat)
            (targets : list (list (list (expr Q * string)) * expr Q)) : bool :=
   forallb (fun ct => existsb (fun cert => check_zero_cert E cut nz 1%nat fuel cert (snd ct)) (fst ct)) targets.
+
+(* ---- C01 (booking level): registered cash flows against the implementation's F / NET term lists ---- *)
+From SFC.Gen Require Import Flows.
+Definition flows_case (ops : list flowop) (expected : list (string * list (Z * string))) : bool :=
+  let L := flow_run ops in
+  forallb (fun ce => zs_eqb (map term_text (ledger_lookup (fst ce) L)) (snd ce)) expected.
